@@ -403,8 +403,18 @@ def _perm_of(fi_cls, e: ast.AST, var: str):
     while True:
         if isinstance(cur, ast.Name) and cur.id == var:
             break
+        if isinstance(cur, ast.IfExp):
+            # both arms must carry the same layout
+            pa, pb = _perm_of(fi_cls, cur.body, var), _perm_of(fi_cls, cur.orelse, var)
+            if pa is None or pa != pb:
+                return None
+            perm = pa
+            break
         if isinstance(cur, ast.Call) and isinstance(cur.func, ast.Attribute):
             f = cur.func
+            if isinstance(f.value, ast.Name) and f.value.id == "self" and len(cur.args) == 1 and "norm" in f.attr.lower():
+                cur = cur.args[0]     # a normalisation layer keeps the layout
+                continue
             if f.attr in ("contiguous", "clone", "float") and not cur.args:
                 cur = f.value
                 continue
@@ -530,13 +540,23 @@ def check_chain(prog: Program, res: Result) -> None:
                 continue
             F = kw["filters"].id
             ic = kw["in_channels"]
+            ic_st = astq_stmt(c)
+            if isinstance(ic, ast.Name):
+                # a named input width, computed in the loop body before the block is built
+                nd = [s_ for s_ in lp.body if isinstance(s_, ast.Assign) and norm(s_.targets[0]) == ic.id]
+                if len(nd) == 1:
+                    ic, ic_st = nd[0].value, nd[0]
             if not isinstance(ic, ast.IfExp):
                 continue
             n_prev += 1
             E = ic.orelse
             st = astq_stmt(c)
             ok = isinstance(E, ast.Name) and E.id != F
-            if ok:
+            if isinstance(E, ast.Name) and E.id == F:
+                # the expression reads F BEFORE this iteration re-computes it: it still holds the previous block's width
+                fdefs = [s_ for s_ in lp.body if isinstance(s_, ast.Assign) and norm(s_.targets[0]) == F]
+                ok = len(fdefs) == 1 and ic_st.lineno < fdefs[0].lineno and fdefs[0].lineno < st.lineno
+            elif ok:
                 fdefs = [s_ for s_ in lp.body if isinstance(s_, ast.Assign) and norm(s_.targets[0]) == F]
                 edefs = [s_ for s_ in lp.body if isinstance(s_, ast.Assign) and norm(s_.targets[0]) == E.id]
                 ok = len(fdefs) == 1 and len(edefs) == 1
